@@ -45,10 +45,6 @@ def validate_tracklets(
 
     # Validate each tracklet.
     for t_id, t_nodes in tracklet_to_nodes.items():
-        # by definition, a tracklet
-        if len(t_nodes) < 2:
-            continue
-
         # Gets a subgraph for the current tracklet.
         S = cast("nx.DiGraph[int]", G.subgraph(t_nodes))
 
@@ -68,6 +64,16 @@ def validate_tracklets(
         # Check - Fully connected.
         if not nx.is_weakly_connected(S):
             errors.append(f"Tracklet {t_id}: Not fully connected.")
+            continue
+
+        # Check - No division or merge of the full graph inside the tracklet.
+        if any(
+            G.out_degree(u) != 1 or G.in_degree(v) != 1  # pyright: ignore
+            for u, v in S.edges
+        ):
+            errors.append(
+                f"Tracklet {t_id}: Invalid path structure (division or merge inside the tracklet)."
+            )
             continue
 
         # Check - Tracklet is maximal linear segment.
